@@ -799,8 +799,10 @@ func (x *Exec) applyContract(st *State, in ssa.Instruction, fc *FuncContract, f 
 			x.fresh[r.String()] = true
 		}
 	}
+	witnesses := map[string]TV{}
 	for _, c := range fc.Ensures {
 		ctx := mk(st)
+		ctx.calleeFn, ctx.witnesses = f, witnesses
 		t := x.evalClauseAt(ctx, c)
 		st.assume(t, "ensures of "+shortName+" ["+c.Label+"]")
 	}
